@@ -13,8 +13,10 @@ for id in "${ids[@]}"; do
     [ -f "$p" ] && echo "$id $p" >> "$list"
   done
 done
-out=$(xargs -a "$list" -P "$jobs" -L 1 selftest/one.sh)
-rm -f "$list"
+log=$(mktemp)
+xargs -a "$list" -P "$jobs" -L 1 selftest/one.sh | tee "$log" | grep --line-buffered -E '^(MISS|SKIP)' >&2
+out=$(cat "$log")
+rm -f "$list" "$log"
 echo "$out" | sort
 n=$(echo "$out" | grep -c '^\(OK\|MISS\)'); miss=$(echo "$out" | grep -c '^MISS'); skip=$(echo "$out" | grep -c '^SKIP')
 echo "mutants run=$n missed=$miss skipped=$skip"
